@@ -60,6 +60,21 @@ ATTR_TYPES = {
     ('nfc.handover.client.HandoverClient', 'socket'): (['nfc.llcp.socket.Socket'], 'nfc.llcp.Socket(llc, DATA_LINK_CONNECTION)'),
 }
 
+LOCAL_TYPES = {
+    ('nfc.clf.ContactlessFrontend._llcp_connect', 'llc'): (['nfc.llcp.llc.LogicalLinkController'], "options['llc'] is set by connect() after the isinstance test"),
+    ('nfc.clf.ContactlessFrontend.connect', 'llc'): (['nfc.llcp.llc.LogicalLinkController'], 'constructed in connect()'),
+    ('nfc.clf.ContactlessFrontend._rdwr_connect', 'tag'): (['nfc.tag.Tag'], 'nfc.tag.activate returns a Tag subclass instance or None'),
+    ('nfc.clf.ContactlessFrontend._card_connect', 'tag'): (['nfc.tag.tt3.Type3TagEmulation'], 'nfc.tag.emulate'),
+}
+
+# element classes of container attributes
+ELEM_TYPES = {
+    ('nfc.llcp.llc.LogicalLinkController', 'sap'): (['nfc.llcp.llc.ServiceAccessPoint', 'nfc.llcp.llc.ServiceDiscovery'],
+                                                   'table of 64 entries filled by __init__ / bind'),
+    ('nfc.llcp.llc.ServiceAccessPoint', 'sock_list'): (['nfc.llcp.tco.RawAccessPoint', 'nfc.llcp.tco.LogicalDataLink',
+                                                       'nfc.llcp.tco.DataLinkConnection'], 'insert_socket(socket)'),
+}
+
 # attributes that refer back to the owner object (Ctx.owner); default class if no owner known
 BACKREFS = {
     ('nfc.tag.Tag.NDEF', '_tag'): 'OUTER',
@@ -134,6 +149,8 @@ class Resolver(object):
             if r is not None and r[0] == 'class':
                 out.add(r[1])
             return out
+        if isinstance(expr, ast.Subscript) and not isinstance(expr.slice, ast.Slice):
+            return self.elem_types(func, expr.value, ctx, depth + 1)
         if isinstance(expr, ast.IfExp):
             return self.types_of(func, expr.body, ctx, depth + 1) | \
                 self.types_of(func, expr.orelse, ctx, depth + 1)
@@ -141,6 +158,23 @@ class Resolver(object):
             out = set()
             for v in expr.values:
                 out |= self.types_of(func, v, ctx, depth + 1)
+            return out
+        return set()
+
+    def elem_types(self, func, expr, ctx, depth=0):
+        """Classes of the elements of a container expression (frozen table ELEM_TYPES, filter(None, x), sorted(x, ...))."""
+        if depth > 5:
+            return set()
+        if isinstance(expr, ast.Call) and norm(expr.func) in ('filter', 'sorted', 'reversed', 'list', 'tuple') and expr.args:
+            return self.elem_types(func, expr.args[-1] if norm(expr.func) == 'filter' else expr.args[0], ctx, depth + 1)
+        if isinstance(expr, ast.Attribute):
+            out = set()
+            for b in self.types_of(func, expr.value, ctx, depth + 1):
+                for c in self.p.mro(b):
+                    if isinstance(c, ClassInfo) and (c.qname, expr.attr) in ELEM_TYPES:
+                        for q in ELEM_TYPES[(c.qname, expr.attr)][0]:
+                            out.add(self.p.cls(q))
+                        break
             return out
         return set()
 
@@ -172,6 +206,10 @@ class Resolver(object):
         k = ('local', func.qname, name, ctx.key() if ctx else None)
         if k in self._local_cache:
             return self._local_cache[k]
+        lt = LOCAL_TYPES.get((func.qname, name))
+        if lt:
+            self._local_cache[k] = set(self.p.cls(q) for q in lt[0])
+            return self._local_cache[k]
         self._local_cache[k] = set()
         out = set()
         f = func
@@ -183,6 +221,11 @@ class Resolver(object):
                         if isinstance(t, ast.Name) and t.id == name:
                             found = True
                             out |= self.types_of(f, n.value, ctx, depth + 1)
+                elif isinstance(n, ast.For) and isinstance(n.target, ast.Name) and n.target.id == name:
+                    et = self.elem_types(f, n.iter, ctx, depth + 1)
+                    if et:
+                        found = True
+                        out |= et
                 elif isinstance(n, ast.withitem) and isinstance(n.optional_vars, ast.Name) \
                         and n.optional_vars.id == name:
                     found = True
@@ -192,9 +235,11 @@ class Resolver(object):
                     t = n.test
                     if isinstance(t, ast.Call) and isinstance(t.func, ast.Name) and t.func.id == 'isinstance' \
                             and len(t.args) == 2 and isinstance(t.args[0], ast.Name) and t.args[0].id == name:
-                        r = self._static(f, t.args[1], ctx)
-                        if r is not None and r[0] == 'class':
-                            out.add(r[1])
+                        alts = t.args[1].elts if isinstance(t.args[1], ast.Tuple) else [t.args[1]]
+                        for alt in alts:
+                            r = self._static(f, alt, ctx)
+                            if r is not None and r[0] == 'class':
+                                out.add(r[1])
             if name in f.params:
                 pt = PARAM_TYPES.get((f.qname, name))
                 if pt:
@@ -392,6 +437,14 @@ class Resolver(object):
                 r = self._static(func, fn, ctx)    # self.NDEF(...) -> nested class
             if r is not None and r[0] in ('class', 'func', 'ext'):
                 return self._done(func, call, self._from_static(r, ctx), record)
+            # local variable bound to a class taken from a module-level dict:  v = D.get(k, Default) ; v.method(...)
+            if isinstance(fn.value, ast.Name):
+                for ci in self._dict_classes(func, fn.value.id):
+                    m = self.p.lookup(ci, fn.attr)
+                    if isinstance(m, FuncInfo):
+                        out.append(Target(m, Ctx(ci)))
+                if out:
+                    return self._done(func, call, out, record)
             # instance method call
             recv_types = self.types_of(func, fn.value, ctx)
             for t in sorted(recv_types, key=lambda c: c.qname):
@@ -402,9 +455,31 @@ class Resolver(object):
                 else:
                     owner = self.self_class(func, ctx)
                     ts = self.method_targets(t, fn.attr, ctx_owner=owner)
+                    if not ts:
+                        ts = self._instance_alias(func, t, fn.attr, Ctx(t, owner))
                 out.extend(ts)
             return self._done(func, call, out, record)
         return self._done(func, call, out, record)
+
+    def _dict_classes(self, func, name):
+        out = []
+        for n in walk_no_nested(func.node):
+            if isinstance(n, ast.Assign) and any(isinstance(t, ast.Name) and t.id == name for t in n.targets):
+                v = n.value
+                d = None
+                extra = []
+                if isinstance(v, ast.Call) and isinstance(v.func, ast.Attribute) and v.func.attr == 'get' and isinstance(v.func.value, ast.Name):
+                    d = v.func.value.id
+                    extra = v.args[1:2]
+                elif isinstance(v, ast.Subscript) and isinstance(v.value, ast.Name):
+                    d = v.value.id
+                ent = func.module.names.get(d) if d else None
+                if ent and ent[0] == 'expr' and isinstance(ent[1], ast.Dict):
+                    for x in list(ent[1].values) + list(extra):
+                        r = self.p.resolve_expr(func.module, x, scope=func)
+                        if r and r[0] == 'class' and r[1] not in out:
+                            out.append(r[1])
+        return out
 
     def _ctx_of(self, func, out, t):
         return self._cur_ctx
@@ -412,6 +487,19 @@ class Resolver(object):
     def _eval_classes(self, func, arg):
         """Classes named by eval(D[k] + 'SUFFIX') where D is a dict literal assigned in the function."""
         out = []
+        if isinstance(arg, ast.BinOp) and isinstance(arg.op, ast.Add) and isinstance(arg.left, ast.Constant) \
+                and isinstance(arg.right, ast.Call) and isinstance(arg.right.func, ast.Attribute) \
+                and arg.right.func.attr == 'capitalize' and isinstance(arg.right.func.value, ast.Name):
+            var = arg.right.func.value.id
+            for n in walk_no_nested(func.node):
+                if isinstance(n, ast.For) and isinstance(n.target, ast.Name) and n.target.id == var \
+                        and isinstance(n.iter, (ast.Tuple, ast.List)):
+                    for e in n.iter.elts:
+                        if isinstance(e, ast.Constant) and isinstance(e.value, str):
+                            ci = self.p.classes.get(arg.left.value + e.value.capitalize())
+                            if ci is not None:
+                                out.append(ci)
+            return out
         if isinstance(arg, ast.BinOp) and isinstance(arg.op, ast.Add) and isinstance(arg.right, ast.Constant) \
                 and isinstance(arg.left, ast.Subscript) and isinstance(arg.left.value, ast.Name):
             suffix = arg.right.value
@@ -449,6 +537,9 @@ class Resolver(object):
             for n in walk_no_nested(f.node):
                 if isinstance(n, ast.Assign) and any(isinstance(t, ast.Name) and t.id == name for t in n.targets):
                     v = n.value
+                    if isinstance(v, ast.Call) and isinstance(v.func, ast.Name) and v.func.id == 'eval' and v.args:
+                        for ci in self._eval_classes(f, v.args[0]):
+                            out.extend(self._from_static(('class', ci), ctx))
                     if isinstance(v, ast.Attribute):
                         fake = ast.Call(func=v, args=[], keywords=[])
                         ast.copy_location(fake, v)
@@ -496,6 +587,14 @@ class Resolver(object):
 
 # parameter types that cannot be inferred locally (call-site argument classes), with reason
 PARAM_TYPES = {
+    ('nfc.snep.server.SnepServer._serve', 'client_socket'): (['nfc.llcp.socket.Socket'], 'listen_socket.accept()'),
+    ('nfc.snep.server.SnepServer._listen', 'listen_socket'): (['nfc.llcp.socket.Socket'], 'nfc.llcp.Socket(llc, DATA_LINK_CONNECTION)'),
+    ('nfc.handover.server.HandoverServer.serve', 'socket'): (['nfc.llcp.socket.Socket'], 'socket.accept()'),
+    ('nfc.handover.server.HandoverServer.listen', 'socket'): (['nfc.llcp.socket.Socket'], 'nfc.llcp.Socket(llc, DATA_LINK_CONNECTION)'),
+    ('nfc.snep.client.send_request', 'socket'): (['nfc.llcp.socket.Socket'], 'SnepClient.socket'),
+    ('nfc.snep.client.recv_response', 'socket'): (['nfc.llcp.socket.Socket'], 'SnepClient.socket'),
+    ('nfc.llcp.llc.ServiceAccessPoint.insert_socket', 'socket'): (['nfc.llcp.tco.RawAccessPoint', 'nfc.llcp.tco.LogicalDataLink', 'nfc.llcp.tco.DataLinkConnection'], 'bind / accept'),
+    ('nfc.llcp.llc.ServiceAccessPoint.remove_socket', 'socket'): (['nfc.llcp.tco.RawAccessPoint', 'nfc.llcp.tco.LogicalDataLink', 'nfc.llcp.tco.DataLinkConnection'], 'llc.close'),
     ('nfc.tag.tt2.read_tlv', 'memory'): (['nfc.tag.tt2.Type2TagMemoryReader'], 'called with tag_memory = Type2TagMemoryReader(self.tag)'),
     ('nfc.tag.tt1.read_tlv', 'memory'): (['nfc.tag.tt1.Type1TagMemoryReader'], 'called with tag_memory = Type1TagMemoryReader(self.tag)'),
     ('nfc.tag.tt1.Type1TagMemoryReader.__init__', 'tag'): (['nfc.tag.tt1.Type1Tag'], 'constructed with self / self.tag'),
